@@ -1,3 +1,4 @@
+From Coq Require Import NArith.
 (* Run/RunC01.v — correspondence for C01: one case = a rule set, a regex table measured on
    the implementation, a history of (scope definitions, event) pairs, and what the
    implementation did for every event of the history:
@@ -10,7 +11,7 @@ From Ecal Require Import Model.Processor.
 Open Scope N_scope.
 
 Record case := mkCase {
-  c_id : nat;
+  c_id : N;
   c_rules : list rule;
   c_rx : list (N * value * bool);
   c_hist : list (list (path * bool) * event);
@@ -126,5 +127,5 @@ Definition verdict (c : case) : nat :=
   | _ => 9%nat
   end.
 
-Definition check_all (cs : list case) : list (nat * nat) :=
+Definition check_all (cs : list case) : list (N * nat) :=
   filter (fun p => negb (Nat.eqb (snd p) 0)) (map (fun c => (c_id c, verdict c)) cs).
